@@ -238,6 +238,26 @@ void File_uncompressedFileWriteThread(struct File *f) {} void File_compressedFil
     ]
     for l, c in asr: b += A(l, c)
     mk('open', ['File_open__char_std__ios_base__openmode'], b, len(asr) + 1, ['File::open'], extra_pre=ostubs)
+    # ------------------------------------------------------------------ setDefaultLogContainerSize / read / write / good / eof
+    b = '''    uint32_t c;
+    File_setDefaultLogContainerSize(&f, c);
+'''
+    asr = [('C06/File/setDefaultLogContainerSize/back-pressure-threshold-stays-at-least-one-container-(a-blocked-compressor-and-a-blocked-encoder-exclude-each-other)', 'U.m_defaultLogContainerSize == c && U.m_bufferSize >= (int64_t)c'),
+           ('C04/File/setDefaultLogContainerSize/sets-the-container-size-used-for-the-cut', 'U.m_defaultLogContainerSize == c && File_defaultLogContainerSize(&f) == c')]
+    for l, c in asr: b += A(l, c)
+    mk('setDefaultLogContainerSize', ['File_setDefaultLogContainerSize', 'File_defaultLogContainerSize'], b, len(asr) + 1, ['File::setDefaultLogContainerSize', 'File::defaultLogContainerSize'])
+    b = '''    struct ObjectHeaderBase *o = (struct ObjectHeaderBase *)malloc(sizeof(struct ObjectHeaderBase)); __CPROVER_assume(o != 0);
+    struct File f0 = f;
+    File_write(&f, o);
+'''
+    asr = [('C11/File/write/hands-the-object-to-the-queue-once-and-keeps-no-alias', 'g_push_calls == 1 && g_pushed == o && f.currentObjectCount == f0.currentObjectCount && f.currentUncompressedFileSize == f0.currentUncompressedFileSize')]
+    for l, c in asr: b += A(l, c)
+    b += '''    struct ObjectHeaderBase *r = File_read(&f);
+'''
+    asr2 = [('C11/File/read/returns-what-the-queue-returned-unmodified-and-keeps-no-alias', 'r == g_dequeued && f.currentObjectCount == f0.currentObjectCount'),
+            ('C13/File/good-and-eof-report-the-queue-state', 'File_good(&f) == (Q.m_rdstate == IOS_goodbit) && File_eof(&f) == ((Q.m_rdstate & IOS_eofbit) != 0)')]
+    for l, c in asr2: b += A(l, c)
+    mk('read_write', ['File_write', 'File_read', 'File_good', 'File_eof'], b, len(asr) + len(asr2) + 1, ['File::write', 'File::read', 'File::good', 'File::eof'])
     return jobs
 
 
